@@ -2,7 +2,36 @@ package main
 
 func init() {
 	reg(&PropSpec{ID: "C03",
-		Harnesses: []HarnessSpec{{Name: "VH_C03_validate", Replay: "native"}},
-		Bounds:    map[string]string{"quick": "0..2 assertions, every optional element present/absent, all strings and instants symbolic", "thorough": "same"},
+		Harnesses: []HarnessSpec{
+			{Name: "VH_C03_validate", Replay: "native"},
+			{Name: "VH_C03_validate_full", Replay: "native", Thorough: true},
+		},
+		Bounds: map[string]string{
+			"quick":    "0..2 assertions; per assertion/response one optional element absent at a time; all strings (SMT String) and instants (64-bit ns) symbolic; one SP-clock reading per Now() call",
+			"thorough": "0..3 assertions; full cross product of absent optional elements",
+		},
+		Outside: []string{"that encoding/xml populates the struct from the document (C08)", "instants outside the int64-nanosecond range (years 1678..2262)"},
+	})
+	reg(&PropSpec{ID: "C05",
+		Harnesses: []HarnessSpec{
+			{Name: "VH_C05_conditions", Replay: "native"},
+			{Name: "VH_C05_expiry", Replay: "native"},
+		},
+		Bounds:  map[string]string{"quick": "Conditions present/absent, both bounds arbitrary strings; 1..3 assertions for the hard expiry; instants 64-bit ns", "thorough": "same"},
+		Outside: []string{"the RFC 3339 parser itself (time.Parse) is represented by uninterpreted functions ok(s), P(s) of the attribute string", "instants outside the int64-nanosecond range"},
+	})
+	reg(&PropSpec{ID: "C06",
+		Harnesses: []HarnessSpec{
+			{Name: "VH_C06_conditions", Replay: "native", QuickOnly: true},
+			{Name: "VH_C06_conditions_deep", Replay: "native", Thorough: true},
+		},
+		Bounds: map[string]string{"quick": "0..2 AudienceRestrictions x 0..2 Audiences, proxy audiences 0..2, Count any int", "thorough": "0..3 x 0..3, proxy audiences 0..3"},
+	})
+	reg(&PropSpec{ID: "C10",
+		Harnesses: []HarnessSpec{
+			{Name: "VH_C10_logout_request", Replay: "native"},
+			{Name: "VH_C10_logout_response", Replay: "native"},
+		},
+		Bounds: map[string]string{"quick": "every optional element present/absent; all strings symbolic", "thorough": "same"},
 	})
 }
